@@ -255,7 +255,15 @@ class ImplWorld:
                 if event.name in ('state entered', 'transition processed', 'event consumed'):
                     clock.value += 7
             it.attach(mover)
-        return {'ok': ok}
+        return {'ok': ok, 'wf': self._wf(ci)}
+
+    def _wf(self, ci):
+        """W1–W8 of the chart (computed on its protocol form, cached)"""
+        cache = self.__dict__.setdefault('_wf_cache', {})
+        if ci not in cache:
+            from .encode import ChartEnc
+            cache[ci] = oracles.wf_json(ChartEnc(self.charts[ci]).json)
+        return cache[ci]
 
     def op_queue(self, i, e):
         self.slots[i].queue(Event(e['ev'], **{k: v for k, v in e['data']}))
